@@ -201,7 +201,7 @@ def run_tool(tool, arr, cache, cmd, env_extra=None, timeout=60, sigint_after=Non
     if os.path.exists(logp):
         os.remove(logp)
     argv = [tool] + FAST + list(opts) + ['--test-io-cache', str(cache), '-c', arr.conf()] + (['-l', logp] if log else []) + cmd
-    p = subprocess.Popen(argv, stdout=subprocess.PIPE, stderr=subprocess.STDOUT, text=True, env=env)
+    p = subprocess.Popen(argv, stdout=subprocess.PIPE, stderr=subprocess.STDOUT, text=True, errors='replace', env=env)
     try:
         if sigint_after is not None:
             time.sleep(sigint_after)
